@@ -30,7 +30,6 @@ type output struct {
 	Skipped     int            `json:"skipped"`
 	SetupMs     int64          `json:"setup_ms"`
 	WaitMs      int64          `json:"wait_ms"`
-	CloseMs     int64          `json:"close_ms"`
 	Outcomes    map[string]int `json:"outcomes"`
 	Shapes      map[string]int `json:"shapes"`
 	Divergences []Divergence   `json:"divergences"`
@@ -84,6 +83,7 @@ func main() {
 		os.Exit(2)
 	}
 	closers.Wait()
+	hostClose()
 	enc, _ := json.MarshalIndent(res, "", " ")
 	if *out == "" {
 		os.Stdout.Write(enc)
